@@ -23,6 +23,14 @@ WRITES = {'set', 'add', 'incr', 'pop', 'delete', 'delitem', 'touch', 'clear', 'e
           'setitem', 'setdefault', 'popitem', 'update'}
 
 
+def open_connection(cache):
+    """make the calling thread open its connection before the scheduled phase"""
+    try:
+        cache._con
+    except AttributeError:
+        len(cache)
+
+
 def run_concurrent(cfg, preset, programs, schedule, shared=False, retry=True):
     """-> dict(ok, events, lines(per client per op), final_state, trace)"""
     env = Env.get()
@@ -52,7 +60,7 @@ def run_concurrent(cfg, preset, programs, schedule, shared=False, retry=True):
             r = runners[cid]
 
             def prepare():
-                r.cache._con  # open this thread's connection (transparent statements only)
+                open_connection(r.cache)  # open this thread's connection (transparent statements only)
 
             def execute(op):
                 line, res, trace = r.run(op)
@@ -102,7 +110,7 @@ def run_concurrent_layer(cls, cfg, preset, programs, schedule):
             r = runners[cid]
 
             def prepare():
-                r.cache._con
+                open_connection(r.cache)
 
             def execute(op):
                 line, res = r.run(op)
